@@ -249,3 +249,13 @@ package schema
 //@   maypanic
 //@   ensures normal ==> result1 == nil && result0.Value == n.value
 //@   ensures normal ==> result0.SchemaType == ((exists i :: 0 <= i && i < len(n.value) && n.value[i] == '|') ? "mixed" : n.schemaType)
+
+//@ interface Node.AddConstraint(self, c)
+//@   requires isNode(self)
+//@   maypanic
+//@   modifies *
+//@ func (*Schema).AddUnnamedType(typ, rootFile, begin)
+//@   props C09
+//@   trusted "registers an anonymous type under a name derived from its address: arbitrary effect on the type table (nothing else assumed)"
+//@   maypanic
+//@   modifies *
